@@ -41,6 +41,7 @@ ASSUMPTIONS = ['host programs are deterministic (same events under the recorder 
 
 FID_REC = 'C15/recursion-name-match'
 FID_STACK = 'C15/top-only-stacked-contexts'
+FID_CAUGHT = 'C15/caught-exception-completes'
 CLOSES = ('span-close', 'cap-close')
 OPENS = ('span-open', 'cap-open')
 
@@ -111,6 +112,33 @@ def rec_case():
             'scripts': {'T0': {'tp0': [True, False, False]}}, 'sched': [], 'model_seed': 0, 'stream': 'kf-rec'}
 
 
+CAUGHT_SRC = ('def g(n, k):\n'                                 # 1
+              '    raise ValueError(n)\n'                       # 2
+              '\n'
+              '\n'
+              'def f(n, k):\n'                                  # 5
+              '    x = n\n'                                     # 6
+              '    try:\n'                                      # 7
+              '        x = x + g(x, next(_TL.ctr))\n'           # 8
+              '    except ValueError:\n'                        # 9
+              '        x = x - 1\n'                             # 10
+              '    r = x + 7\n'                                 # 11
+              '    return r\n')                                 # 12
+
+
+def caught_case():
+    return {'kind': 'prog', 'mode': 'sys', 'files': {'m0.py': CAUGHT_SRC}, 'entries': [['m0', 'f', 1]],
+            'tps': [cap_tp(0, 'm0.py', method='f')], 'scripts': {}, 'sched': [], 'model_seed': 0,
+            'stream': 'kf-caught'}
+
+
+def method_cap_opens(case, events, t):
+    """indices of the call events at which a deferred METHOD capture is opened (by the statement's rule)"""
+    groups, _ = th.reference(case['tps'], events, case.get('scripts', {}).get(t, {}), upto=th.emptied_at(case, events))
+    caps = {tp['id'] for tp in case['tps'] if tp.get('capture') == 'method'}
+    return {g['i'] for g in groups if any(k == 'cap-open' and tp in caps for k, tp in g['effects'])}
+
+
 def stack_case():
     return {'kind': 'prog', 'mode': 'sys', 'files': {'m0.py': STACK_SRC}, 'entries': [['m0', 'g', 1]],
             'tps': [span_tp(0, 'm0.py', method='f'), span_tp(1, 'm0.py', line=4)],
@@ -128,6 +156,9 @@ def fault_case():
 def known_replays():
     return [(FID_REC, 'rec(2) with a method span that fires once: the span opened in rec(2) is closed at rec(0)\'s '
                       'return (callbacks match by file + function name, not by frame)', rec_case()),
+            (FID_CAUGHT, 'f has a deferred method capture, catches the ValueError of g and returns 7: the capture is '
+                         'completed at the caught exception event and attaches the ValueError, the return value is never '
+                         'attached', caught_case()),
             (FID_STACK, 'method span on f and line span on f\'s last line: at f\'s return only the top context is '
                         'examined, the method span is never closed and stays pending on the thread', stack_case())]
 
@@ -153,7 +184,9 @@ def hypotheses(case, streams):
     """(clash, stacked) per thread, by the instance predicates of the two known findings."""
     out = {}
     for t, events in streams.items():
-        out[t] = (th.clash(events), th.stacked(events, opens_of(case, events, t)))
+        op = opens_of(case, events, t)
+        out[t] = (th.clash(events), th.stacked(events, op) or th.stacked_strict(events, op),
+                  th.caught_completes(events, method_cap_opens(case, events, t)))
     return out
 
 
@@ -265,9 +298,19 @@ def gen_case(rng, tier, stream='main'):
             case['sequential'] = True
         streams = reference_streams(case)
         hyp = hypotheses(case, streams)
-        any_clash = any(c for c, _ in hyp.values())
-        any_stack = any(s for _, s in hyp.values())
+        any_clash = any(h[0] for h in hyp.values())
+        any_stack = any(h[1] for h in hyp.values())
+        any_caught = any(h[2] for h in hyp.values())
         if stream == 'main':
+            # repair: no deferred method capture on an invocation that catches an exception
+            while any_caught:
+                cand = [i for i, tp in enumerate(case['tps']) if tp.get('capture') == 'method']
+                if not cand:
+                    break
+                del case['tps'][rng.choice(cand)]
+                hyp = hypotheses(case, streams)
+                any_caught = any(h[2] for h in hyp.values())
+                any_stack = any(h[1] for h in hyp.values())
             # repair: drop line openings until no invocation ends with two of its own contexts pending
             while any_stack and case['tps']:
                 cand = [i for i, tp in enumerate(case['tps'])
@@ -276,11 +319,33 @@ def gen_case(rng, tier, stream='main'):
                     break
                 del case['tps'][rng.choice(cand)]
                 hyp = hypotheses(case, streams)
-                any_stack = any(s for _, s in hyp.values())
-            if not any_clash and not any_stack and case['tps']:
+                any_stack = any(h[1] for h in hyp.values())
+            if not any_clash and not any_stack and not any_caught and case['tps']:
                 return case
         elif stream == 'kf-rec' and any_clash:
             return case
+        elif stream == 'kf-caught':
+            if any_caught and not any_clash:
+                return case
+            # force it: a deferred method capture on every called function that sees a caught exception
+            for t, events in streams.items():
+                inv = th.invocations(events)
+                for i, e in enumerate(events):
+                    if e['kind'] == 'call' and e['path'].startswith('/host/') and e['func'].startswith('f'):
+                        if th.caught_completes(events, {i}):
+                            case['tps'] = [cap_tp(0, os.path.basename(e['path']), method=e['func'])] + \
+                                [tp for tp in case['tps'] if not tp.get('capture')][:3]
+                            for q, tp in enumerate(case['tps']):
+                                tp['id'] = 'tp%d' % q
+                                if tp.get('scripted'):
+                                    tp['args']['condition'] = "_dec('%s')" % tp['id']
+                            case['scripts'] = {}
+                            for tp in case['tps']:
+                                tp.pop('scripted', None)
+                                tp.get('args', {}).pop('condition', None)
+                            hyp = hypotheses(case, streams)
+                            if any(h[2] for h in hyp.values()) and not any(h[0] for h in hyp.values()):
+                                return case
         elif stream == 'kf-stack':
             if any_stack and not any_clash:
                 return case
@@ -299,9 +364,10 @@ def gen_case(rng, tier, stream='main'):
                     case['tps'] = [span_tp(0, b, method=fn), span_tp(1, b, line=ret)]
                     case['scripts'] = {}
                     hyp = hypotheses(case, streams)
-                    if any(s for _, s in hyp.values()) and not any(c for c, _ in hyp.values()):
+                    if any(h[1] for h in hyp.values()) and not any(h[0] for h in hyp.values()):
                         return case
-    return rec_case() if stream == 'kf-rec' else stack_case() if stream == 'kf-stack' else dict(stack_case(), tps=[
+    return rec_case() if stream == 'kf-rec' else stack_case() if stream == 'kf-stack' else \
+        caught_case() if stream == 'kf-caught' else dict(stack_case(), tps=[
         span_tp(0, 'm0.py', method='f')], stream='main')
 
 
@@ -313,6 +379,8 @@ def gen(rng, tier):
             yield gen_case(rng, tier, 'kf-rec')
         elif k % 10 in (3, 7):
             yield gen_case(rng, tier, 'cfg-emptied')
+        elif k % 10 == 1:
+            yield gen_case(rng, tier, 'kf-caught')
         elif k % 10 in (2, 8):
             yield gen_case(rng, tier, 'fault')
         elif k % 10 == 5:
@@ -469,7 +537,15 @@ def oracle_thread(case, obs, t):
                          o['kind'], o['tp'], i_open, os.path.basename(events[i_open]['path']), events[i_open]['line'],
                          os.path.basename(o.get('path') or '?'), o.get('line'), o.get('lasti')))
             continue
-        if o['kind'] == 'cap-close' and method and not [j for j in cands if events[j]['kind'] != 'line']:
+        x = th.exit_event(events, inv, i_open) if (method and events[i_open]['kind'] == 'call') else None
+        if o['kind'] == 'cap-close' and x is not None and x not in cands and \
+                [j for j in cands if events[j]['kind'] != 'line']:
+            e = events[cands[0]]
+            v.append('deferred method capture of %s was completed at an own %s event (%s:%s, %s) that is not the end of '
+                     'the invocation: the value it returned / the exception it raised (%s at line %s) is not attached' % (
+                         o['tp'], e['kind'], os.path.basename(e['path']), e['line'], e['argtext'],
+                         events[x]['argtext'], events[x]['line']))
+        elif o['kind'] == 'cap-close' and method and not [j for j in cands if events[j]['kind'] != 'line']:
             v.append('deferred method capture of %s was completed at a line event (%s:%s): it carries no result of the '
                      'invocation' % (o['tp'], os.path.basename(o.get('path') or '?'), o.get('line')))
         elif o['kind'] == 'cap-close' and not any(cap_matches(o.get('cap'), events[j]) for j in cands):
@@ -535,15 +611,16 @@ def known_finding(case, obs):
     for t in threads_of(case):
         events = obs['ref'].get(t, [])
         op = opens_of(case, events, t)
-        flags[t] = (th.name_confusion(events, op), th.stacked(events, op))
+        flags[t] = (th.name_confusion(events, op), th.stacked(events, op) or th.stacked_strict(events, op),
+                    th.caught_completes(events, method_cap_opens(case, events, t)))
     bad = [t for t in threads_of(case) if oracle_thread(case, obs, t)]
     if not bad or not obs['host_same'] or not obs['trace_kept']:
         return None
     if any(t not in threads_of(case) for t in obs['effects']):
         return None
-    if not all(flags[t][0] or flags[t][1] for t in bad):
+    if not all(flags[t][0] or flags[t][1] or flags[t][2] for t in bad):
         return None
-    return FID_REC if any(flags[t][0] for t in bad) else FID_STACK
+    return FID_REC if any(flags[t][0] for t in bad) else FID_STACK if any(flags[t][1] for t in bad) else FID_CAUGHT
 
 
 def model_request(case, obs):
